@@ -91,9 +91,11 @@ def check(ctx):
     from .. import gencore
     gencore.v1(ctx, 150 if ctx.tier == "quick" else 1500, which=("opt", "raw"))
     envs, run = core.core_run(ctx.tier)
-    core.scan(ctx, envs, run, ("slices",), make_t3(envs), nontrivial, "stack built-in off its spec")
+    core.scan(ctx, envs, run, ("slices", "stack"), make_t3(envs), nontrivial, "stack built-in off its spec")
     lim = 3 if ctx.tier == "quick" else 6
-    ctx.rule = ("slices family: PEEK[a..b] / PEEK[a..] for all a, b in -%d..%d on stacks of depth 0..4 (content and depth taken from "
+    ctx.rule = ("stack family (PUSH / POP / DROP / POP_ALL / PEEK / PEEK_ALL under failing and succeeding choices, optionals, repetitions and "
+                "predicates nested up to depth 3, incl. predicates whose operand empties the stack) against the reference interpreter; "
+                "slices family: PEEK[a..b] / PEEK[a..] for all a, b in -%d..%d on stacks of depth 0..4 (content and depth taken from "
                 "the input: (PUSH(\"ab\"|\"a\"|\"b\")){0,4} ~ \"-\" ~ slice), in atomic and non-atomic context, plus PEEK/POP/DROP/"
                 "PEEK_ALL/POP_ALL incl. empty stack and PUSH of an empty match; inputs = all pushed prefixes x all suffixes up to the "
                 "tier's length; oracles: reference interpreter and an independent list-slicing model; non-trivial = final stack "
